@@ -153,6 +153,15 @@ def check(ctx):
         r2.check(len(mc.args) == 1 and re.match(r'^\w+$', mc.args[0]) and mc.args[0] not in (linev, outp), 'matched text is the word', rel, mc.line, 'match() is applied to %s' % mc.args)
     # on match: delete the pattern, append the matched word, stop trying patterns for this word
     dels = [e for e in G.effects if e.kind == 'del' and re.match(r'^%s\[\w+\]$' % re.escape(pname), e.target)]
+    # the other way of retiring a satisfied request: it is recorded in a set of resolved names, and a name in that set is never matched again
+    retired_set = None
+    if not dels:
+        for e in gsa.find(G, 'call', r'^\w+\.add$'):
+            sname = e.target.split('.')[0]
+            member = [a_ for a_ in G.atoms() if re.match(r'^\w+ in %s$' % re.escape(sname), a_)]
+            if e.args and member and e.args[0] == member[0].split(' in ')[0] and all(gsa.impossible(G, mc, [(r'^%s$' % re.escape(member[0]), True)]) for mc in mcalls):
+                dels.append(e)
+                retired_set = sname
     MATCHED = r'\.match\(\w+\)( is None)?$'
     r2.check(len(dels) >= 1 and all(gsa.impossible(G, e, [(MATCHED, 'A')]) and any(re.match(r'^\w+\.split\(\)$', l) for l in e.loops) for e in dels), 'satisfied request removed', rel, dels[0].line if dels else g.lineno,
              'a satisfied request stays outstanding (later files could replace the first listed one): deletions %s' % [(e.target, e.when()[:100]) for e in dels])
@@ -178,16 +187,23 @@ def check(ctx):
     # ---------------------------------------------------------------- R3 loud failure
     r3 = ctx.rule('R3', 'any unresolved name -> SystemExit naming it; nothing swallows it', floor=4)
     LEFT = r'^%s$' % re.escape(pname)
+    if retired_set is not None:
+        # outstanding requests = the requested names that are not in the resolved set
+        LEFT = r'^\[(\w+) for \1 in %s if \1 not in %s\]$' % (re.escape(pname), re.escape(retired_set))
     raises = [e for e in G.effects if e.kind == 'raise' and e.value.startswith('SystemExit(')]
     ok = any(not e.loops and gsa.impossible(G, e, [(LEFT, False)]) and gsa.allowed(G, e, [(LEFT, True)]) and
-             [a_ for a_ in gsa.atoms(e.cond) if not a_.startswith('@') and not re.match(LEFT, a_) and not re.match(r'^%s$' % re.escape(G.P(0)), a_)] == [] for e in raises)
+             [a_ for a_ in gsa.atoms(e.cond) if not a_.startswith('@') and not re.match(LEFT, a_) and not re.match(r'^%s$' % re.escape(G.P(0)), a_) and a_ != pname] == [] for e in raises)
     r3.check(ok, 'raise SystemExit when requests remain', rel, g.lineno,
              'there is no `raise SystemExit` reached exactly when some requested library is still unresolved (%s non-empty): %s' % (pname, [e.when()[:120] for e in raises]))
-    msg_ok = any(re.search(r'join\((list\()?%s(\.keys\(\))?\)?\)' % re.escape(pname), e.value) or ('%s.keys()' % pname) in e.value for e in raises)
+    msg_ok = any(re.search(r'join\((list\()?%s(\.keys\(\))?\)?\)' % re.escape(pname), e.value) or ('%s.keys()' % pname) in e.value or
+                 (retired_set is not None and re.search(r'join\(\[(\w+) for \1 in %s if \1 not in %s\]\)' % (re.escape(pname), re.escape(retired_set)), e.value)) for e in raises)
+    if not msg_ok and retired_set is not None:
+        left_locals = [t.id for t, v, st in P.stores_in(g) if isinstance(t, ast.Name) and re.match(LEFT, gsa._unparse(v))]
+        msg_ok = any(re.search(r'join\((%s)\)' % '|'.join(map(re.escape, left_locals)), e.value) for e in raises) if left_locals else False
     r3.check(msg_ok, 'error names the unresolved libraries', rel, g.lineno, 'the SystemExit message does not list the unresolved names')
     for ret in [e for e in G.effects if e.kind == 'return' and e.fn == 'resolve_from_ldd_output']:
         early = ret.seq < ps.seq
-        r3.check(not ret.loops and (early or gsa.impossible(G, ret, [(LEFT, True)])), 'return only with nothing unresolved', rel, ret.line,
+        r3.check(not ret.loops and (early or gsa.impossible(G, ret, [(LEFT, True)]) or gsa.impossible(G, ret, [(r'^%s$' % re.escape(pname), True)])), 'return only with nothing unresolved', rel, ret.line,
                  'resolve_from_ldd_output can return normally while requested libraries are unresolved: returns when %s' % ret.when()[:200], detail=ret.when()[:200])
     # nothing on the way to scanner_main swallows SystemExit
     offenders = []
